@@ -89,6 +89,8 @@ structure InstX where
   forkUids : List (String × String) := []
   actionUids : List String := []
   context : List (String × Val) := []
+  /-- `some o`: `flow_state.context` IS the context dict of instance `o` (flow started with `context=$self.context`) -/
+  ctxOwner : Option FUid := none
   priority : Option (Int × Nat) := some (1, 0)     -- FlowState.priority = 1.0
   arguments : List (String × Val) := []
   parentUid : Option String := none
@@ -173,6 +175,22 @@ def getInstX (f : FUid) : M InstX := do
 
 def modInstX (f : FUid) (g : InstX → InstX) : M Unit :=
   modifyRest fun r => { r with fx := OMap.modify f g r.fx }
+
+/-- the instance whose `context` field holds this instance's (possibly shared) context dict -/
+def ctxHolder (f : FUid) : M FUid := do
+  match (← getInstX f).ctxOwner with
+  | none => pure f
+  | some o =>
+    if (← getInstX? o).isSome then pure o
+    else unsupported "shared context whose owning instance was cleaned up"
+
+/-- `flow_state.context` -/
+def getCtx (f : FUid) : M (List (String × Val)) := do return (← getInstX (← ctxHolder f)).context
+
+/-- `flow_state.context.update({k: v})` -/
+def setCtxVar (f : FUid) (k : String) (v : Val) : M Unit := do
+  let o ← ctxHolder f
+  modInstX o fun x => { x with context := OMap.insert k v x.context }
 
 def getHead? (k : Key) : M (Option Head) := do
   return (findInst (← getIx) k.1).bind (·.findHead k.2)
